@@ -30,7 +30,13 @@ func main() {
 	maxDocs := flag.Int("docs", 0, "limit the number of documents (0 = all)")
 	procs := flag.Int("procs", 0, "GOMAXPROCS (0 = default)")
 	cold := flag.String("cold", "", "a narrow first phase on the cold process: validate | calculate (all goroutines released together, same order, no other stage in between)")
+	hook := flag.String("hook", "", "run the in-process bulk / cancellation workload of internal/conchook instead: all | bulk | cancel")
+	size := flag.String("size", "quick", "size of the -hook workload: quick | thorough")
 	flag.Parse()
+	if *hook != "" {
+		runHook(*repo, *seed, *size, *hook)
+		return
+	}
 	if *procs > 0 {
 		runtime.GOMAXPROCS(*procs)
 	}
